@@ -337,7 +337,7 @@ pub fn run(ctx: &Ctx, st: &mut Stats) {
         ev(st, ty, pic, text, exp, "explicit");
     }
     // (e)+(f)+(g) lenient spellings of boundary/random values, their perturbations, defective pictures
-    let n = ctx.tier.pick(600, 1_200_000, 24_000_000);
+    let n = ctx.tier.pick(600, 1_200_000, ctx.big(24_000_000, 120_000_000));
     ctx.par(st, "(e,f,g) lenient spellings / perturbed texts / defective pictures, all six types", false, 0, n, |st, _, rng| {
         let ty = *rng.pick(&ALL_TY);
         let (pic, toks): (String, Vec<Tok>) = if rng.chance(1, 2) {
